@@ -2170,7 +2170,10 @@ impl Scenario for C16 {
                     rng.below(6) as u8
                 };
                 let mut l = vec![Op::Begin { ws, dir }];
-                for _ in 0..rng.range(1, if rich { 4 } else { 3 }) {
+                // one workspace in forty is wide: 21-70 operations that keep rewriting the
+                // same few keys (the last write of each key is what the block must leave)
+                let n_ops = if rng.chance(1, 40) { rng.range(21, 70) } else { rng.range(1, if rich { 4 } else { 3 }) };
+                for _ in 0..n_ops {
                     let k = if disjoint_keys { (t as u8 * 2 + rng.below(2) as u8) % NKEYS } else { rng.below(3) as u8 };
                     if rich && rng.chance(3, 5) {
                         u += 1;
